@@ -253,27 +253,33 @@ def openValMap (pool : Pool) : List (List Cell) → List ((List Char × List Cha
     let cn ← strCell (vs.getD 1 .null)
     if acc.any (fun e => e.1 == (tn, cn)) then .err .invalidData else openValMap pool rs (((tn, cn), vs) :: acc)
 
-/-- the builder of one column from its `_Validation` row (if any) -/
+/-! what each cell of a `_Validation` row contributes to the column builder -/
+def valNullable (vs : List Value) : Bool := vs.getD 2 .null == .str ['Y']
+def valRange (vs : List Value) : Option (Int32 × Int32) :=
+  match vs.getD 3 .null, vs.getD 4 .null with
+  | .int lo, .int hi => some (lo, hi)
+  | _, _ => none
+def valForeignKey (vs : List Value) : Option (List Char × Int32) :=
+  match vs.getD 5 .null, vs.getD 6 .null with
+  | .str kt, .int kc => some (kt, kc)
+  | _, _ => none
+def valCategory (vs : List Value) : Option Category :=
+  match vs.getD 7 .null with
+  | .str cat => Category.fromStr (String.ofList cat)
+  | _ => none
+def valEnum (vs : List Value) : List (List Char) :=
+  match vs.getD 8 .null with
+  | .str en => Category.splitOn ';' en
+  | _ => []
+
+/-- the builder of one column from its `_Validation` row (if any): each builder call of the
+code sets one field from one or two cells of the row -/
 def openBuilder (valSpecs : List ((List Char × List Char) × List Value)) (tn cn : List Char) : Column :=
-  let base : Column := { name := cn, coltype := .int16 }
   match valSpecs.find? (fun e => e.1 == (tn, cn)) with
-  | none => base
+  | none => { name := cn, coltype := .int16 }
   | some (_, vs) =>
-    let b1 := if vs.getD 2 .null == .str ['Y'] then { base with isNullable := true } else base
-    let b2 := match vs.getD 3 .null, vs.getD 4 .null with
-      | .int lo, .int hi => { b1 with valueRange := some (lo, hi) }
-      | _, _ => b1
-    let b3 := match vs.getD 5 .null, vs.getD 6 .null with
-      | .str kt, .int kc => { b2 with foreignKey := some (kt, kc) }
-      | _, _ => b2
-    let b4 := match vs.getD 7 .null with
-      | .str cat => match Category.fromStr (String.ofList cat) with
-        | some k => { b3 with category := some k }
-        | none => b3
-      | _ => b3
-    match vs.getD 8 .null with
-    | .str en => { b4 with enumValues := Category.splitOn ';' en }
-    | _ => b4
+    { name := cn, coltype := .int16, isNullable := valNullable vs, valueRange := valRange vs,
+      foreignKey := valForeignKey vs, category := valCategory vs, enumValues := valEnum vs }
 
 /-- columns 1..n of one table, in order; a missing number is malformed -/
 def openColumns (specs : List (List Char × Nat × List Char × Int32))
